@@ -238,8 +238,11 @@ def replay_case(arg):
                 fail('GradSlotOK', 'score', dict(s1=float(sc), call=float(v), call_after=float(v2)))
             if g.shape != exp_g.shape:
                 fail('FP_Counts', 'gradient_length', dict(got=list(g.shape), expected=list(exp_g.shape)))
-            elif not interp.close(g, exp_g, rtol=1e-6, atol=1e-6):
-                bad = [rec['names'][k] for k in range(len(g)) if not interp.close(g[k], exp_g[k], rtol=1e-6, atol=1e-6)]
+            # (tolerance relative to the LARGEST entry as well: near a degenerate filter variance some entries reach 1e14 and the
+            # smaller ones of the same gradient carry the rounding of the large terms they are differences of)
+            elif not interp.close(g, exp_g, rtol=1e-6, atol=1e-6 + 1e-9 * float(np.max(np.abs(exp_g)))):
+                atol_g = 1e-6 + 1e-9 * float(np.max(np.abs(exp_g)))
+                bad = [rec['names'][k] for k in range(len(g)) if not interp.close(g[k], exp_g[k], rtol=1e-6, atol=atol_g)]
                 fail('GradSlotOK', 'gradient', dict(positions=bad[:6], got=g.tolist(), expected=exp_g.tolist()))
         if not np.array_equal(x_in, x):
             fail('NoInputWrite', 'parameters_modified', None)
